@@ -290,6 +290,33 @@ func dictHistories(depth int) {
 			expect("dict.ToDict", fmt.Sprint(h), canon(got), canon(m))
 			checkDictState(h, td, m)
 		})
+		// every origin of the same dictionary: the first s entries through ToDict (s = 0: of an empty and of
+		// a nil list), the rest through Add - a dictionary is a finite map wherever it came from
+		for s := 0; s <= len(h); s++ {
+			for variant := 0; variant < 2; variant++ {
+				if variant == 1 && s > 0 {
+					continue
+				}
+				head := append([]frt.Tuple2[string, int]{}, pairs[:s]...)
+				if variant == 1 {
+					head = nil
+				}
+				in := fmt.Sprintf("ToDict of the first %d (nil list: %v) then Add of the rest of %v", s, head == nil, h)
+				noPanic("dict.ToDict+Add", in, func() {
+					td := dict.ToDict(head)
+					for _, o := range h[s:] {
+						dict.Add(td, o.k, o.v)
+					}
+					got := map[string]int{}
+					for _, kv := range dict.KVs(td) {
+						got[kv.E0] = kv.E1
+					}
+					expect("dict.ToDict+Add", in, canon(got), canon(m))
+					checkDictState(h, td, m)
+					rep.Trans++
+				})
+			}
+		}
 	}, func(c *explore.Chooser) bool { return !rep.TooMany() })
 	rep.States += st.States
 	rep.Trans += st.Transitions
